@@ -476,9 +476,9 @@ def build(read):
             "header": """                invariant
                     0 <= gj <= entries(osrc@).len(),
                     __ito.remaining().len() == entries(osrc@).len() - gj, // [C19:every_property_is_rendered_once]
-                    forall|j: int| 0 <= j < __ito.remaining().len() ==> (#[trigger] __ito.remaining()[j]).0@ == entries(osrc@)[gj + j].0 && *__ito.remaining()[j].1 == entries(osrc@)[gj + j].1, // [C19:object_properties_are_visited_in_an_order_that_depends_only_on_the_contents]
+                    forall|j: int| 0 <= j < __ito.remaining().len() ==> (#[trigger] __ito.remaining()[j]).0@ == entries(osrc@)[gj + j].0 && *__ito.remaining()[j].1 == entries(osrc@)[gj + j].1, // [C12_C19:object_properties_are_visited_in_an_order_that_depends_only_on_the_contents]
                     props_upto(osrc, gj) is Some,
-                    s@ == "{\\n"@ + props_upto(osrc, gj).unwrap(), // [C19:an_object_is_rendered_one_indented_key_value_line_per_property_in_ascending_key_order]
+                    s@ == "{\\n"@ + props_upto(osrc, gj).unwrap(), // [C12_C19:an_object_is_rendered_one_indented_key_value_line_per_property_in_ascending_key_order]
                 ensures
                     gj == entries(osrc@).len(),
                 decreases entries(osrc@).len() - gj"""},
